@@ -173,6 +173,8 @@ func (s *tlsfState) free(i int, recipe bool) {
 			}
 		}
 		verifAssert("C06/tlsf/free-leaves-others-untouched", ok)
+		_, still := regionByUD(after.regs, g.ud)
+		verifAssert("C06/tlsf/freed-allocation-is-gone", !still)
 	}
 }
 
@@ -213,8 +215,17 @@ func tlsfHistory(prop int, cfg int) {
 		for i := 0; i < nf; i++ {
 			s.free(verifChoice("recipeVictim", len(s.live)), true)
 		}
-		s.check("after-recipe")
 		K = 2
+	}
+	endOnly := prop == pC01 || prop == pC03
+	if endOnly {
+		lo := 1
+		if cfg/10 == 1 {
+			lo = 0
+		}
+		K = lo + verifChoice("historyLength", K-lo+1)
+	} else if cfg/10 == 1 {
+		s.check("after-recipe")
 	}
 	for step := 0; step < K; step++ {
 		nops := 1
@@ -227,6 +238,11 @@ func tlsfHistory(prop int, cfg int) {
 		case 1:
 			s.free(verifChoice("victim", len(s.live)), false)
 		}
+		if !endOnly {
+			s.check("after-step")
+		}
+	}
+	if endOnly {
 		s.check("after-step")
 	}
 	if prop == pC06 || prop == pC18 {
